@@ -7,7 +7,11 @@ prop("C05",
                   "every non-finished position has a legal move (holds for Tak positions with reserves left; hypothesis `Live` of the theorems)"],
      per_op_timeout="120s")
 prop("C16",
-     generators=["C16"],
+     # "C07": the property's clause about the SAME engine being used again after a cancelled search rests, in the bot
+     # (playtak/bot/bot.go, anchored by C16), on moveLock admitting one GetMove at a time: a cancelled thinker that is
+     # still unwinding must have returned before the next thinker enters the (non-reentrant) engine.  The C07 tie observes
+     # exactly that (status two-thinkers-in-GetMove; model: C07.lock_exclusive), so its schedules run here as well.
+     generators=["C16", "C07"],
      rule="for sampled (configuration, position): the cancel flag is set from inside the k-th leaf evaluation for EVERY k in 1..size of the search when that size <= 40 (thorough: <= 400), else boundaries + 20 random k; counted: distinct op lines: the cancelled Analyze compared exactly with the model (cancel oracle), equality with an uninterrupted search limited to the completed depth (value, PV, depth, counters), a follow-up Analyze on the same engine compared with the model and with a fresh engine",
      assumptions=["data-race freedom is outside the model (thorough tier: go test -race of TestCancel/TestRepeatedCancel as supporting evidence only)",
                   "as C05"],
